@@ -61,17 +61,28 @@ class LiteDRAMWishbone2Native(LiteXModule):
             port.cmd.last.eq(~wishbone.we), # Always wait for reads.
             port.flush.eq(~wishbone.cyc)    # Flush writes when transaction ends.
         ]
+        # Once a write command has been accepted its data has to be provided, even when the master
+        # drops the cycle before the acknowledge: keep a copy of the data/sel of the command.
+        wdata = Signal.like(wishbone.dat_w)
+        wsel  = Signal.like(wishbone.sel)
         fsm.act("CMD",
             port.cmd.valid.eq(wishbone.cyc & wishbone.stb),
             If(port.cmd.valid & port.cmd.ready &  wishbone.we, NextState("WRITE")),
             If(port.cmd.valid & port.cmd.ready & ~wishbone.we, NextState("READ")),
             NextValue(aborted, 0),
+            NextValue(wdata, wishbone.dat_w),
+            NextValue(wsel,  wishbone.sel),
         )
         self.comb += [
             port.wdata.valid.eq(wishbone.stb & wishbone.we),
             If(ratio <= 1, If(~fsm.ongoing("WRITE"), port.wdata.valid.eq(0))),
             port.wdata.data.eq(wishbone.dat_w),
             port.wdata.we.eq(wishbone.sel),
+            If(fsm.ongoing("WRITE"),
+                port.wdata.valid.eq(1),
+                port.wdata.data.eq(wdata),
+                port.wdata.we.eq(wsel),
+            ),
         ]
         fsm.act("WRITE",
             NextValue(aborted, ~wishbone.cyc | aborted),
